@@ -94,7 +94,10 @@ def search(ctx, scale, hints):
                 lines.append('el.msm_vartime %s %s' % (';'.join('%x' % k for k in ks) if n else '-', ';'.join(E(p) for p in ps) if n else '-')); exp.append(acc)
         out = harness.run_script(b, lines)
         for l, o, e in zip(lines, out, exp):
-            try: got = pyref.aff(parseE(o)); ok = pyref.coset_eq(got, e) and pyref.wf(parseE(o))
+            try:
+                c = parseE(o[3:] if o.startswith('OK ') else o)
+                if len(c) == 2: got = tuple(c); ok = pyref.coset_eq(got, e) and pyref.on_curve(got)          # affine result
+                else: got = pyref.aff(c); ok = pyref.coset_eq(got, e) and pyref.wf(c)
             except Exception: got = o; ok = False
             if not ok:
                 fails.append(('%s returns %s, the k-fold sum is %s (build %s)' % (l[:110], str(got)[:100], e, b),
